@@ -269,6 +269,17 @@ class Executor:
                 cell = self.field(v, variant, p[1], p[2])
                 cur_ty = p[2]
                 variant = None
+            elif p[0] == "constindex":
+                v = cell.v
+                if v is None:
+                    v = cell.v = Obj(cur_ty)
+                if not isinstance(v, Obj):
+                    raise Unsupported(f"index projection on {v!r}")
+                elem_ty = "u8" if "u8" in cur_ty else "?"
+                if elem_ty == "?":
+                    raise Unsupported("constant index into a non-byte slice: " + cur_ty)
+                cell = self.field(v, "elem", p[1], elem_ty)
+                cur_ty = elem_ty
             else:
                 raise Unsupported(f"projection {p[0]}")
         if variant is not None:
@@ -302,6 +313,10 @@ class Executor:
             return o
         if text in self.named_consts:
             return copy.deepcopy(self.named_consts[text])
+        m = re.match(r"^core::num::<impl (u8|u16|u32|u64|usize)>::(MAX|MIN)$", text)
+        if m:
+            bits = INT_BITS[m.group(1)]
+            return z3.BitVecVal((1 << bits) - 1 if m.group(2) == "MAX" else 0, bits)
         m = re.match(r"^(.*)::(\w+)::promoted\[(\d+)\]$", text)
         if m:
             return self.eval_const_item(st, f"::{m.group(2)}::promoted[{m.group(3)}]")
@@ -333,7 +348,7 @@ class Executor:
             d = self.discr_of(st, v)
             bits = INT_BITS.get(dest_ty, 64)
             return d if bits == 64 else z3.Extract(bits - 1, 0, d)
-        m = re.match(r"^&(?:raw (?:const|mut) |mut |fake )?(.+)$", text)
+        m = re.match(r"^&(?:raw (?:const|mut) |mut |fake )?(?:\(fake\) )?(.+)$", text)
         if m and not text.startswith("&&"):
             cell, _ = self.resolve(st, fr, parse_place(m.group(1)))
             return Ref(cell)
@@ -373,8 +388,16 @@ class Executor:
             if m.group(1) == "Not":
                 return z3.Not(a) if z3.is_bool(a) else ~a
             return -a
-        if m and m.group(1) in ("Len", "PtrMetadata"):
-            raise Unsupported("rvalue " + m.group(1))
+        if m and m.group(1) == "PtrMetadata":
+            # metadata of a slice pointer = its length
+            v = self.operand(st, fr, parse_operand(m.group(2)))
+            while isinstance(v, Ref):
+                v = v.cell.v
+            if not isinstance(v, Obj):
+                raise Unsupported("PtrMetadata of " + repr(v))
+            return self.field(v, "meta", 0, "usize").v
+        if m and m.group(1) == "Len":
+            raise Unsupported("rvalue Len")
         # tuple
         if text.startswith("(") and text.endswith(")"):
             parts = [p for p in split_top(text[1:-1], ", ") if p.strip()]
